@@ -120,3 +120,32 @@ REG.add(Contract(FILE, 'Multi_Range_Potential_Form.range_defns.setter',
     requires=lambda v: [_valid_markers(v.range_defns)], ensures=_setter_post,
     post_names=['start-ascending-inclusive-before-exclusive', 'markers-valid', 'same-number-of-ranges', 'same-ranges'], instantiate_int_foralls=True,
     carries=['post'], props=['C08']))
+
+# the constructor: default value 0.0 unless given, the ranges sorted by the setter (callers in the handled subset pass no keyword arguments)
+REG.add(Contract(FILE, 'Multi_Range_Potential_Form.__init__',
+    params=[('self', T.New('Multi_Range_Potential_Form')), ('range_defns', T.List(T.Obj('Multi_Range_Defn')))],
+    requires=lambda v: [_valid_markers(v.range_defns)],
+    ensures=lambda v, old, res: [v.field('self', 'default_value') == 0] + _setter_post(v, old, res),
+    post_names=['default-value-zero-without-keyword', 'start-ascending-inclusive-before-exclusive', 'markers-valid', 'same-number-of-ranges', 'same-ranges'],
+    instantiate_int_foralls=True, carries=['post'], props=['C08']))
+
+# create_Multi_Range_Potential_Form: the class is chosen by the derivatives the ranges' forms offer (some deriv2 -> _Deriv2; else some
+# deriv -> _Deriv; else the base class), the object is built over exactly the given ranges with the default value 0.0
+from pyvc.spec import SpecAcc
+any_d2 = SpecAcc('some_range_offers_deriv2', [RDList], lambda rt: z3.BoolVal(False), lambda rt, t, prev: z3.Or(prev, has_deriv2(pform(rt[t]))), result=BoolS)
+any_d1 = SpecAcc('some_range_offers_deriv', [RDList], lambda rt: z3.BoolVal(False), lambda rt, t, prev: z3.Or(prev, has_deriv(pform(rt[t]))), result=BoolS)
+def _create_post(v, old, res):
+    rt = old.range_tuples; n = z3.Length(rt)
+    cls = res.sort().name()[len('Obj_'):]
+    d2, d1 = any_d2(rt, n), any_d1(rt, n)
+    want = {'Multi_Range_Potential_Form_Deriv2': d2, 'Multi_Range_Potential_Form_Deriv': z3.And(z3.Not(d2), d1),
+            'Multi_Range_Potential_Form': z3.And(z3.Not(d2), z3.Not(d1))}.get(cls, z3.BoolVal(False))
+    got = field(cls, '_range_defns', RDList)(res); x = z3.Const('x!cp', RD)
+    return [want, field(cls, 'default_value', RealS)(res) == 0] + canonical(got) + \
+           [z3.Length(got) == n, z3.ForAll([x], z3.Contains(got, z3.Unit(x)) == z3.Contains(rt, z3.Unit(x)))]
+REG.add(Contract(FILE, 'create_Multi_Range_Potential_Form@construction',
+    params=[('range_tuples', T.List(T.Obj('Multi_Range_Defn')))], result=T.Any,
+    requires=lambda v: [_valid_markers(v.range_tuples)], ensures=_create_post,
+    post_names=['class-by-offered-derivatives', 'default-value-zero', 'start-ascending-inclusive-before-exclusive', 'markers-valid', 'same-number-of-ranges', 'same-ranges'],
+    invariants={0: lambda v, old: [v.any_deriv2 == any_d2(old.range_tuples, v._i0), v.any_deriv == any_d1(old.range_tuples, v._i0)]},
+    instantiate_int_foralls=True, carries=['post'], props=['C08']))
